@@ -6,6 +6,7 @@ import (
 	"context"
 	"errors"
 	"io"
+	"sync"
 	"time"
 
 	pb "diagonal.works/b6/osm/proto"
@@ -23,6 +24,7 @@ import (
 // model also used for the other C28 harnesses.
 
 type vhCtx struct {
+	mu       sync.Mutex // as in the real context: cancel and Err are synchronised (and so are scheduling points)
 	done     chan struct{}
 	canceled bool
 }
@@ -32,6 +34,8 @@ var vhErrCanceled = errors.New("context canceled")
 func (c *vhCtx) Deadline() (time.Time, bool) { return time.Time{}, false }
 func (c *vhCtx) Done() <-chan struct{}       { return c.done }
 func (c *vhCtx) Err() error {
+	c.mu.Lock()
+	defer c.mu.Unlock()
 	if c.canceled {
 		return vhErrCanceled
 	}
@@ -39,6 +43,8 @@ func (c *vhCtx) Err() error {
 }
 func (c *vhCtx) Value(key interface{}) interface{} { return nil }
 func (c *vhCtx) cancel() {
+	c.mu.Lock()
+	defer c.mu.Unlock()
 	if !c.canceled {
 		c.canceled = true
 		close(c.done)
